@@ -92,6 +92,12 @@ class C20(Prop):
                              "abstracted as an association list with an arbitrary drain order")
 
     # ------------------------------------------------------------------ cases
+    # translator tie: GroupByObserver (compiler-expanded src/ops/group_by.rs, translated) against the routing skeleton of
+    # the model: key evaluated once, lookup by equality, announcement before the first item, terminal fan-out
+    tie_modules = {
+        "RxModel.GenTie.GroupBy": [],
+    }
+
     def cases(self, tier, seed):
         rng = random.Random(seed)
         maxlen = 6 if tier == "quick" else 7
